@@ -430,6 +430,54 @@ pub fn run(rep: &mut Report, thorough: bool) {
             rep.stage(&stage, "5 text fields (HTTP target, header value, SSH software, SSH comment, SMB1 dialect) x 6 fill sequences (2/3/4-byte UTF-8, invalid bytes, ASCII) x 4 alignments x every length 1..300 x {UDP, TCP}", total, t0);
         }
     }
+    // 4b'. sizes: every corpus payload grown (filler appended) to sizes around and far beyond a
+    // 1500-byte MTU, as a datagram, as an echo body, and as a TCP segment behind a valid cookie
+    {
+        let sizes: Vec<usize> = vec![1400, 1472, 1473, 1480, 1500, 1514, 2048, 4096, 9000, 16384, 32768, 65000, 65507, 65535, 70000];
+        let pls = payloads();
+        let fills: [u8; 3] = [b'a', 0x00, 0xff];
+        let cfgj = crate::props::cfg_lists();
+        let f4 = flow4(40000, 80);
+        let f6 = flow6(40000, 80);
+        let ck = learn_cookies(&cfgj, &[f4.clone(), f6.clone()]).unwrap_or_default();
+        let dims = [pls.len() as u64 + 1, sizes.len() as u64, 3, 2, 2];
+        let t0 = std::time::Instant::now();
+        let opts = RunOpts::new("sizes").stateful().chunk(16).no_monitor();
+        let cfgc = cfgj.clone();
+        engine::run(
+            &cfgj,
+            engine::product(&dims),
+            &opts,
+            |i| {
+                let d = engine::unrank(i, &dims);
+                let f = if d[3] == 0 { &f4 } else { &f6 };
+                let n = sizes[d[1] as usize];
+                let fill = fills[d[2] as usize];
+                if d[0] as usize == pls.len() {
+                    let body: Vec<u8> = vec![fill; n];
+                    return vec![Cmd::Frame(f.icmp_echo(1, 2, &body))];
+                }
+                let mut m = pls[d[0] as usize].bytes.clone();
+                if m.len() < n {
+                    m.resize(n, fill);
+                }
+                if d[4] == 0 {
+                    vec![Cmd::Frame(f.udp(&m))]
+                } else {
+                    let c = ck.get(&key_of(f)).copied().unwrap_or(0).wrapping_add(1);
+                    vec![Cmd::Frame(f.tcp(1000, c, F_PSH | F_ACK, &m))]
+                }
+            },
+            |it: &Item, sk: &mut Sink| {
+                sk.count("frames", 1);
+                if it.outs[1].panicked {
+                    sk.violation(Violation { prop: "C01".into(), key: format!("panic:{}", engine::panic_site(&it.outs[1].text)), what: format!("reply() panicked: {}", it.outs[1].text), cfg: cfgc.clone(), cmds: it.cmds.to_vec(), idx: it.idx, stage: "sizes".into() });
+                }
+            },
+            &mut rep.sink,
+        );
+        rep.stage("sizes", "(every corpus payload + ICMP echo) grown to 15 sizes 1400..70000 x 3 fill bytes x {v4,v6} x {UDP, TCP behind a valid cookie}, overflow-checked build at log level trace", engine::product(&dims), t0);
+    }
     // 4c. connection-level histories: BFS over the real connection table with SYNs, valid and
     // invalid data of several protocols (HTTP, RPC, SSH) on two flows — protocol state that
     // survives a re-identification of the flow must not crash a later handler
